@@ -144,6 +144,10 @@ both('lat_neg_expr', ['lattice l(i32, i32)', 'lattice d(i32, ascent::Dual<i32>)'
       'miss(x) <-- e(x, v), !d(x, ascent::Dual(*v))',
       'cnt(x, c) <-- e(x, v), agg c = count() in l(x, *v + 1)',
       'near(x) <-- e(x, _), agg c = count() in d(_, ascent::Dual(2)), if c > 0'], tags=['lattice', 'neg', 'agg', 'lat_neg'])
+# an aggregator given as a parenthesised expression: a closure, a parameterised aggregator
+both('agg_closure', ['relation foo(i32, i32)', 'relation k(i32)', 'relation o(i32, i32)', 'relation q(i32, i32)'],
+     ['o(x, m) <-- k(x), agg m = (|it| max(it))(v) in foo(x, v)', 'q(x, m) <-- k(x), agg m = (percentile(50.0))(v) in foo(x, v)'],
+     tags=['agg'], crate='corpus_run2')
 # the product order as a lattice column (tuple and array carrier)
 both('lat_product', ['relation s(i32, i32, i32)', 'relation e(i32, i32)', 'lattice p(i32, ascent::lattice::Product<(i32, i32)>)', 'lattice q(i32, ascent::lattice::Product<[i32; 2]>)', 'relation big(i32)'],
      ['p(x, ascent::lattice::Product((*a, *b))) <-- s(x, a, b)', 'p(y, *v) <-- e(x, y), p(x, v)',
